@@ -27,6 +27,7 @@ import (
 	"strconv"
 	"strings"
 	"sync"
+	"sync/atomic"
 	"testing"
 	"time"
 
@@ -346,10 +347,34 @@ func NewKind[C any](r *Recorder, name string, judge func(C) []Violation) *Kind[C
 	return &Kind[C]{r: r, st: st, judge: judge}
 }
 
+// InfraClause marks a "violation" that is really the harness failing to set the case up for a
+// reason unrelated to the code under test (e.g. every retry lost the race for a TCP port). Such
+// cases are not judged: they are counted (coverage key infra_skipped), printed once, and never
+// become a VIOLATION. Use it only for causes that cannot be the property's fault.
+const InfraClause = "INFRA"
+
+// Infra builds such a marker.
+func Infra(format string, args ...interface{}) Violation {
+	return Violation{Clause: InfraClause, Detail: fmt.Sprintf(format, args...)}
+}
+
+var infraSkipped atomic.Int64
+var infraPrinted atomic.Bool
+
 func safeJudge[C any](judge func(C) []Violation, c C) (vs []Violation) {
 	defer func() {
 		if p := recover(); p != nil {
 			vs = append(vs, Violation{Clause: "no-panic", Detail: fmt.Sprintf("panic: %v\n%s", p, trimStack(debug.Stack()))})
+		}
+		for _, v := range vs {
+			if v.Clause == InfraClause {
+				infraSkipped.Add(1)
+				if !infraPrinted.Swap(true) {
+					fmt.Printf("INFRA-SKIP (case not judged): %s\n", firstLine(v.Detail))
+				}
+				vs = nil
+				return
+			}
 		}
 	}()
 	return judge(c)
@@ -677,6 +702,9 @@ func (r *Recorder) Finish() {
 		Extra: r.extra, WallS: time.Since(r.start).Seconds(), BulkNT: r.extraBulkNontrivial,
 	}
 	p.Distinct = int64(len(r.hashes))
+	if n := infraSkipped.Load(); n > 0 {
+		p.Extra["infra_skipped"] = n
+	}
 	for _, name := range r.kindOrder {
 		st := r.kinds[name]
 		p.Evaluations += st.evals
